@@ -21,9 +21,9 @@ META = {
         'the right-hand side subtracts the basis times inputans masked by the complement of ia; C13.WEIGHTS - normal matrix and '
         'right-hand side are both formed with invvar itself (not a 0/1 mask); C13.YFIT-ALL - the basis and the fitted model are evaluated at every abscissa, masked ones included, and the normal matrix is solved as formed; C13.GRID - TraceSet.xy without xpos builds nx = '
         'int(xmax - xmin + 1) positions in unit steps offset by xmin; C13.BASIS-FRESH - func_fit scales the basis array in place, so '
-        'every basis function returns a freshly allocated array (no memo decorator, no module-level cache). C13.FIT-ONCE - the fit/reject loop of TraceSet.__init__ holds on entry for maxiter = 0 (loop test folded on its initial values); C13.FLOAT-BASIS - the Legendre basis array is floating for every abscissa dtype. C13.FLOAT-OUT - the coefficient, fit and evaluation arrays of a TraceSet are not allocated in the dtype of the pixel positions (func_fit itself asserts that its arrays share the dtype of x, and is left alone); C13.BASIS-EACH - TraceSet.xy recomputes the normalised abscissa and the basis for every trace unconditionally; NOT decided: that the '
+        'every basis function returns a freshly allocated array (no memo decorator, no module-level cache). C13.FIT-ONCE - the fit/reject loop of TraceSet.__init__ holds on entry for maxiter = 0 (loop test folded on its initial values); C13.FLOAT-BASIS - the Legendre basis array is floating for every abscissa dtype. C13.FLOAT-OUT - the coefficient, fit and evaluation arrays of a TraceSet are not allocated in the dtype of the pixel positions (func_fit itself asserts that its arrays share the dtype of x, and is left alone); C13.INMASK-WEIGHT - the weights TraceSet.__init__ hands to func_fit are, on every reaching definition and every pass of the fit loop, masked by the invvar and the inmask of the caller (must-analysis; the mask returned by djs_reject carries only what its inmask argument carries); C13.BASIS-EACH - TraceSet.xy recomputes the normalised abscissa and the basis for every trace unconditionally; NOT decided: that the '
         'bases equal the textbook polynomials (delegated to scipy; numerical), least-squares optimality, exact recovery.'),
-    'floors': {'C13.BASIS-EACH': 1, 'C13.FLOAT-OUT': 2, 'C13.FIT-ONCE': 1, 'C13.FLOAT-BASIS': 1, 'C13.REGISTRY': 3, 'C13.XNORM': 4, 'C13.FIXED-LAST': 3, 'C13.WEIGHTS': 3, 'C13.GRID': 2, 'C13.BASIS-FRESH': 4, 'C13.YFIT-ALL': 3},
+    'floors': {'C13.INMASK-WEIGHT': 1, 'C13.BASIS-EACH': 1, 'C13.FLOAT-OUT': 2, 'C13.FIT-ONCE': 1, 'C13.FLOAT-BASIS': 1, 'C13.REGISTRY': 3, 'C13.XNORM': 4, 'C13.FIXED-LAST': 3, 'C13.WEIGHTS': 3, 'C13.GRID': 2, 'C13.BASIS-FRESH': 4, 'C13.YFIT-ALL': 3},
 }
 
 TRACE = 'pydl/pydlutils/trace.py'
@@ -417,7 +417,111 @@ def check_basis_each(ctx, repo):
                       'previous trace\'s basis' % (src(c)[:50], src(conds[0])[:60] if conds else ''), construct='basis reused across traces')
 
 
+def check_inmask_weight(ctx, repo):
+    """C13.INMASK-WEIGHT: the weights TraceSet.__init__ hands to func_fit are zero wherever the caller's invvar is zero AND wherever the
+    caller's inmask is zero, on every pass of the fit / reject loop.  A must-analysis over reaching definitions: a value `carries` an
+    input when it is that input, a row / cast / positivity test of a carrier, or a product (or &) with a carrier as a factor; a name
+    carries what ALL its reaching definitions carry; an all-ones default carries everything; the mask returned by djs_reject carries
+    what its inmask argument carries (and its outmask argument when sticky), nothing else - djs_reject does not AND with invvar."""
+    f = repo.func(TRACE, 'TraceSet.__init__')
+    fa = FA(f)
+    ALL = frozenset(('invvar', 'inmask'))
+    kw = f.node.args.kwarg.arg if f.node.args.kwarg else 'kwargs'
+
+    class Unknown(Exception):
+        pass
+
+    def carry(e, seen):
+        if isinstance(e, ast.Subscript) and isinstance(e.value, ast.Name) and e.value.id == kw and isinstance(e.slice, ast.Constant):
+            return frozenset((e.slice.value,)) & ALL
+        if isinstance(e, ast.Call) and isinstance(e.func, ast.Attribute) and isinstance(e.func.value, ast.Name) and e.func.value.id == kw \
+                and e.func.attr == 'get' and e.args and isinstance(e.args[0], ast.Constant):
+            k = frozenset((e.args[0].value,)) & ALL
+            return k if len(e.args) < 2 else k & carry(e.args[1], seen) if k else frozenset()
+        if isinstance(e, ast.Name):
+            if e.id in f.params and fa.is_param(e):
+                return frozenset((e.id,)) & ALL
+            key = (e.id, getattr(e, 'lineno', 0), getattr(e, 'col_offset', 0))
+            if key in seen:
+                return ALL                  # greatest fixed point of a must-analysis
+            seen = seen | {key}
+            out = ALL
+            ds = fa.defs(e)
+            if not ds:
+                return frozenset()
+            for d, v in ds:
+                if d is None:
+                    continue
+                if v is not None:
+                    out &= carry(v, seen)
+                    continue
+                st = d
+                if isinstance(st, ast.Assign) and isinstance(st.value, ast.Call) and call_name(st.value) == 'djs_reject' \
+                        and isinstance(st.targets[0], ast.Tuple) and isinstance(st.targets[0].elts[0], ast.Name) and st.targets[0].elts[0].id == e.id:
+                    c = st.value
+                    got = frozenset()
+                    for k in c.keywords:
+                        if k.arg == 'inmask':
+                            got |= carry(k.value, seen)
+                        if k.arg == 'outmask' and any(k2.arg == 'sticky' and isinstance(k2.value, ast.Constant) and k2.value.value is True for k2 in c.keywords):
+                            got |= carry(k.value, seen)
+                    out &= got
+                    continue
+                if isinstance(st, (ast.For, ast.AugAssign)) or isinstance(st, ast.Assign):
+                    raise Unknown('`%s` is bound by `%s`' % (e.id, src(st).split('\n')[0][:60]))
+                raise Unknown('`%s` has a binding this rule cannot follow' % e.id)
+            return out
+        if isinstance(e, ast.BinOp) and isinstance(e.op, (ast.Mult, ast.BitAnd)):
+            return carry(e.left, seen) | carry(e.right, seen)
+        if isinstance(e, ast.BoolOp) and isinstance(e.op, ast.And):
+            out = frozenset()
+            for v in e.values:
+                out |= carry(v, seen)
+            return out
+        if isinstance(e, ast.Subscript):
+            return carry(e.value, seen)
+        if isinstance(e, ast.Call) and isinstance(e.func, ast.Attribute) and e.func.attr in ('astype', 'copy', 'view') and not (
+                isinstance(e.func.value, ast.Name) and e.func.value.id in ('np', 'numpy')):
+            return carry(e.func.value, seen)
+        if isinstance(e, ast.Call) and call_name(e) in ('ones', 'ones_like') and isinstance(e.func, ast.Attribute):
+            return ALL                      # the default: nothing masked
+        if isinstance(e, ast.Call) and call_name(e) in ('asarray', 'array', 'float64', 'logical_and', 'multiply') and e.args:
+            out = frozenset()
+            for a in (e.args if call_name(e) in ('logical_and', 'multiply') else e.args[:1]):
+                out |= carry(a, seen)
+            return out
+        if isinstance(e, ast.Compare) and len(e.ops) == 1 and isinstance(e.ops[0], (ast.Gt, ast.NotEq)) and isinstance(e.comparators[0], ast.Constant) \
+                and e.comparators[0].value == 0:
+            return carry(e.left, seen)
+        if isinstance(e, ast.IfExp):
+            return carry(e.body, seen) & carry(e.orelse, seen)
+        return frozenset()
+    g = repo.func(TRACE, 'func_fit')
+    n = 0
+    for c in walk_local(f.node):
+        if not (isinstance(c, ast.Call) and call_name(c) == 'func_fit'):
+            continue
+        bound = dict(zip(g.params, c.args))
+        bound.update({k.arg: k.value for k in c.keywords if k.arg})
+        w = bound.get('invvar')
+        n += 1
+        if w is None:
+            ctx.check('C13.INMASK-WEIGHT', False, f, c, '', msg='TraceSet.__init__ fits without weights: neither invvar nor inmask of the caller reaches func_fit',
+                      construct='func_fit without invvar')
+            continue
+        try:
+            got = carry(w, frozenset())
+        except Unknown as e:
+            raise AnalysisError('C13: TraceSet.__init__: the weights handed to func_fit (`%s`) cannot be followed to invvar / inmask: %s' % (src(w)[:50], e))
+        miss = sorted(ALL - got)
+        ctx.check('C13.INMASK-WEIGHT', not miss, f, c, 'the weights handed to func_fit (`%s`) are zero wherever the caller\'s invvar or inmask is zero, on every pass' % src(w)[:50],
+                  msg='the weights TraceSet.__init__ hands to func_fit (`%s`) are not masked by the caller\'s %s on every pass of the fit loop: points the caller '
+                      'excluded take part in the fit' % (src(w)[:60], ' / '.join(miss)), construct='fit weights without ' + '/'.join(miss))
+    ctx.need(n >= 1, 'TraceSet.__init__: call of func_fit not found')
+
+
 def run(ctx):
+    check_inmask_weight(ctx, ctx.repo)
     check_basis_each(ctx, ctx.repo)
     from .floatlib import check_float_alloc
     check_float_alloc(ctx, ctx.repo, 'C13.FLOAT-OUT', [(TRACE, 'TraceSet.__init__'), (TRACE, 'TraceSet.xy')],
